@@ -278,6 +278,9 @@ class MergedSequences(Generic[_ValueT]):
     if idx_seq == len(indices) and index > indices[-1]:
       return _MergedSequenceIndex(idx_seq - 1)
     if index == indices[idx_seq]:
+      # Empty sequences share their start index with the next sequence, skip
+      # to the last sequence starting at this index.
+      idx_seq = bisect.bisect_right(indices, index) - 1
       return _MergedSequenceIndex(idx_seq, 0)
     return _MergedSequenceIndex(idx_seq - 1, index - indices[idx_seq - 1])
 
